@@ -7,7 +7,7 @@ from vlib import core, mir, native
 from mirsym import parse_mir, Exec, Ref, LCell, Cell, Enum, Abort, Panic, Unknown
 import mirsym, models
 from models import MODELS, WakerObj, ContextObj, parse_layouts
-from explore import explore, Acc
+from explore import explore, explore_levels, boundary, Acc
 
 MAX_SENDERS = 3
 OPS = ['send', 'clone', 'dropS', 'close', 'poll', 'rsender', 'dropR']
@@ -111,7 +111,7 @@ class Chan:
         elif kind == 'dropR':
             ex.drop(self.rx); self.rx = None; res = ('-',)
         elif kind == 'poll':
-            wid = self.npoll; self.npoll += 1
+            wid = self.npoll % 3; self.npoll += 1          # three waker identities in rotation (a one-slot LocalWaker cannot confuse more)
             cx = ContextObj(WakerObj(wid))
             r = ex.run(c.POLL, [Ref(LCell(Cell(self.rx))), Ref(LCell(Cell(cx)))])
             if r.variant == 'Pending': res = ('pending', wid)
@@ -131,6 +131,7 @@ def make_body(c, depth):
     def body(ex, acc):
         ch = Chan(c, ex); st = ref_new(); hist = []; ex.hist = hist
         for step in range(depth):
+            boundary(ex, acc, step + 1, [ch.senders, ch.rx, st, ch.npoll % 3])
             ops = []
             if ch.senders: ops += ['send', 'dropS', 'close']
             if ch.senders and len(ch.senders) < MAX_SENDERS: ops.append('clone')
@@ -158,6 +159,7 @@ def make_body(c, depth):
             if op[0] == 'poll' and res[0] == 'pending': acc.wit['receiver_parked'] += 1
             if op[0] == 'poll' and res[0] == 'none': acc.wit['stream_ended'] += 1
             if op[0] == 'send' and res[0] == 'err': acc.wit['send_refused'] += 1
+        boundary(ex, acc, depth + 1, [ch.senders, ch.rx, st, ch.npoll % 3])
         acc.states.add((len(st['q']), st['closed'], st['n'], st['parked'] is not None, st['rx'], len(hist)))
         if len(acc.samples) < 3 and len(hist) == depth: acc.samples.append(' '.join(hist))
     return body
@@ -185,7 +187,7 @@ def native_check(binary, hist):
         elif kind in ('clone', 'dropS', 'close'): op = (kind, int(p[1])); res = ('-',)
         elif kind == 'poll':
             op = ('poll',)
-            if r == 'pending': res = ('pending', npoll)
+            if r == 'pending': res = ('pending', npoll % 3)
             elif r == 'none': res = ('none',)
             else: res = ('some', int(r[4:]))
             npoll += 1
@@ -244,11 +246,11 @@ def differential(c, binary, seed, n=250):
 
 # ------------------------------------------------------------------ entry points
 def run(rep, tier, seed):
-    depth = 6 if tier == 'quick' else 8
+    depth = 8 if tier == 'quick' else 11
     depth = int(os.environ.get('VERIF_C16_DEPTH', depth))
     rep.engines.add('mirsym (engine S) + z3 %s' % z3.get_version_string())
     rep.bounds.update({'operation_sequence_length': depth, 'max_senders': MAX_SENDERS, 'payload': 'symbolic u8 per send',
-                       'acting_sender': 'symbolic', 'waker': 'fresh identity per poll'})
+                       'acting_sender': 'symbolic', 'waker': 'three identities in rotation'})
     rep.models |= {'Rc (strong count)', 'RefCell (borrow flag; double borrow = panic)', 'VecDeque (FIFO list)', 'Cell<Option<Waker>>',
                    'Waker (identity + wake counter)'}
     rep.assumptions += ['callee models of std items (Rc, RefCell, VecDeque, Cell, Waker) implement their documented contract',
@@ -260,7 +262,8 @@ def run(rep, tier, seed):
     rep.counters['traces_validated_against_impl'] += n
     if bad:
         rep.inconc('differential validation mismatch between mirsym and the native build: %r' % (bad[0],)); return
-    acc = explore(lambda: mk_exec(c), make_body(c, depth), seed=seed, wall_cap=3000 if tier == 'thorough' else 900)
+    acc = explore_levels(lambda: mk_exec(c), make_body(c, depth), depth + 1, seed=seed, wall_cap=3000 if tier == 'thorough' else 900)
+    rep.bounds['distinct_states_per_level'] = acc.level_counts
     acc.to_report(rep)
     for key, v in sorted(acc.viol.items()):
         hist = concretize(v['hist'], v['model'])
